@@ -18,6 +18,8 @@ ValidationFailure).  Three streams:
  D/E. (c19_conc.py) several fetches at once over one fake / one real application.
  F. (c19_sig.py) really signed segments (own encoder, 33 signature shapes) with the application's default validator and
     the shipped checkers in force; "must be refused" recomputed on the wire.
+ G. (c19_meta.py) the MetaInfo of the answers varies per packet (FreshnessPeriod / ContentType forms, MetaInfo element absent /
+    empty / with an unknown element, FinalBlockId placement) x must_be_fresh x losses, over the real NDNApp.
 """
 import asyncio
 import itertools
@@ -82,6 +84,23 @@ RULE = ('A: objects of N=0..12 segments x every discovery answer (segment k<N, u
         'what the fetch did.  Oracles: a packet that must be refused is never yielded (unverified-segment-yielded) and ends the fetch with '
         'ValidationFailure at its position (validation-failure-not-propagated), the scenario so obtained goes through Spec.expected / headline '
         '/ retry discipline / model trace like stream C, strict validator asked once per packet. '
+        'METAINFO OF THE ANSWERS (G, c19_meta.py; also drawn in C): one fetch over the real v1 NDNApp, packets encoded by the harness itself '
+        '(correctly signed; default validator / sha256_digest_checker / union_checker / strict validator in force), the MetaInfo of every packet '
+        'chosen per packet: FreshnessPeriod absent / 0 / 1 / 2 / 255 / 256 / 1000 / 4000 / 65536 / 3600000 / 2^32 / 2^64-1 as NonNegativeInteger '
+        'of every legal width (0 in 1, 2, 4, 8 octets); ContentType absent / BLOB written out / LINK / KEY / NACK(3) / Manifest / PrefixAnn / '
+        'KiteAck / unassigned (9, 255) / application range (1024, 9999) / 65536 / 2^32 / 2^64-1, several widths; no MetaInfo element / an empty '
+        'one / one with an unassigned non-critical element; FinalBlockId on no / the last / every / an early self-designating / a wrong '
+        'earlier / only the first segment / non-canonical - tables: FreshnessPeriod form of ONE packet x position (first, middle, last of 3; '
+        'the only segment; an unsegmented object) x discovery answered by that very packet / another one x must_be_fresh {True, False}; '
+        'ContentType kind of ONE packet x position x discovery; marker style x one (FreshnessPeriod in {absent, 0, 1, large}, ContentType in '
+        '{absent, LINK, KEY, NACK}) on EVERY segment x must_be_fresh with losses {0, att-1, att} on one key; MetaInfo element absent / empty / '
+        'unknown element x FreshnessPeriod x must_be_fresh; sampled objects of 0..6 segments where every packet draws its MetaInfo (up to 60% '
+        'FreshnessPeriod 0), losses around the limit, retry_times 0..3, 10% with one segment whose signature does not verify.  In stream C half '
+        'of the sampled scenarios draw (ContentType, FreshnessPeriod) per Data (library encoder) - crossed with Nack forms, validation failure '
+        'and validator latency - plus a table FreshnessPeriod {absent, 0, 1, large} x ContentType {BLOB, NACK, KEY} x must_be_fresh x later '
+        'segment delivered / nacked / refused after retry-1 losses.  Oracle unchanged (the specification does not look at ContentType / '
+        'FreshnessPeriod: a Data that reached the application inside the lifetime of a matching pending Interest was delivered): Spec.expected, '
+        'headline, retry discipline (timeout-without-exhaustion), validator asked once per packet, site segment_fetcher+NDNApp(MetaInfo shapes). '
         'non-trivial = at least one Interest answered with Data and at least two Interests sent; distinct by case hash')
 ASSUMPTIONS = ['one fetch awaits one coroutine at a time (sequential by construction); SEVERAL fetches over one application are '
                'interleaved by asyncio - streams D and E run them on the virtual-time loop and judge each fetch against the scenario it '
@@ -719,6 +738,9 @@ def run(ctx):
         # really signed segments, the shipped validators in force (the application's default, the shipped checkers)
         from harness.props import c19_sig
         c19_sig.stream_f(ctx)
+        # the MetaInfo of the answers varies (FreshnessPeriod / ContentType forms, FinalBlockId placement) x must_be_fresh
+        from harness.props import c19_meta
+        c19_meta.stream_g(ctx)
     except Runaway:
         ctx.notes.append('stopped early: the fetcher under test does not terminate on lost Interests')
 
